@@ -1,6 +1,8 @@
 (* Drv_paging — wire entry for the paging correspondence (C12).
    case   = (lines height)          lines = ((codepoints) ...), height = integer (any sign)
-   result = (event ...)             event = (0 codepoints) printed line | (1) press-ENTER prompt | (2) out of fuel *)
+   result = (event ...)             event = (0 codepoints) printed line | (1) press-ENTER prompt | (2) out of fuel
+   case   = (lines height typed)    typed = ((codepoints) ...) the lines the user types, in order
+   result = ((event ...) (left ...) status)     left = typed lines not consumed; status = 0 done | 1 blocked at a prompt | 2 out of fuel *)
 From Coq Require Import ZArith NArith List.
 From SL Require Import Sx PyInt Widget Paging.
 Import ListNotations.
@@ -12,11 +14,20 @@ Definition of_pevent (e : pevent) : sx :=
   | POutOfFuel => L [I 2%Z]
   end.
 
+Definition of_pstatus (st : pstatus) : sx :=
+  match st with PgDone => I 0%Z | PgBlocked => I 1%Z | PgOutOfFuel => I 2%Z end.
+
 Definition run (s : sx) : sx :=
   match s with
   | L [ls; h] =>
     do lines <- as_list as_str ls;
     do height <- as_Z h;
     of_list of_pevent (print_widget lines height)
+  | L [ls; h; ty] =>
+    do lines <- as_list as_str ls;
+    do height <- as_Z h;
+    do typed <- as_list as_str ty;
+    let r := print_widget_in lines height typed in
+    L [ of_list of_pevent (pr_events r); of_list of_str (pr_left r); of_pstatus (pr_status r) ]
   | _ => bad_input
   end.
